@@ -22,7 +22,9 @@ RULE = (
     "twin solver given one call with the summed limit must return the same values, iteration and policy whenever "
     "no earlier call ended by convergence (PI is judged by this twin clause and the 'at most k' clause only). "
     "Sweeps whose measure lies within 1e-9 (1+scale) of the threshold are borderline: the case is dropped from "
-    "there on. Non-trivial = >=2 calls, some call ending at its limit and convergence reached; distinct = case digest."
+    "there on - except in the exact-arithmetic family (a fifth of the cases: gamma in {1/2, 1}, probabilities k/4, "
+    "integer rewards, epsilon set so that the threshold EQUALS the measure of a generated sweep; exactness is verified "
+    "with rational arithmetic), where a tie is decided strictly: the solver must not stop at a measure equal to the threshold. Non-trivial = >=2 calls, some call ending at its limit and convergence reached; distinct = case digest."
 )
 ASSUMPTIONS = [
     "relative VI is compared with plain undiscounted iterates modulo an additive constant (independent of the "
@@ -77,7 +79,66 @@ def strategy(tier, shard):
     from hypothesis import strategies as st
 
     @st.composite
+    def exact_tie_cases(draw):
+        """All quantities are dyadic rationals with few bits (gamma in {1/2, 1}, probabilities k/4, integer rewards):
+        every float operation of a sweep is exact in numpy and in the solver alike, so an exact tie between the
+        measure and the threshold is decidable: the documented rule (strictly below) must NOT stop there."""
+        kind = draw(st.sampled_from(["vi", "vi", "rvi", "pvi", "sa"]))
+        nS = draw(st.integers(2, 5))
+        nA = draw(st.integers(1, 3))
+        wts = draw(st.sampled_from([[1], [1, 1], [3, 1], [2, 1, 1], [1, 1, 1, 1]]))
+        nE = len(wts)
+        tot = float(sum(wts))
+        hub = draw(st.integers(0, nS - 1))
+        nxt = [[[draw(st.integers(0, nS - 1)) for _ in range(nE)] for _ in range(nA)] for _ in range(nS)]
+        if kind in ("rvi", "pvi"):
+            for s_ in range(nS):
+                for a_ in range(nA):
+                    nxt[s_][a_][draw(st.integers(0, nE - 1))] = hub
+        rew = [[[float(draw(st.integers(-8, 8))) for _ in range(nE)] for _ in range(nA)] for _ in range(nS)]
+        prb = [[[w / tot for w in wts] for _ in range(nA)] for _ in range(nS)]
+        v0 = [float(draw(st.integers(-6, 6))) for _ in range(nS)] if draw(st.booleans()) else None
+        spec = dict(nS=nS, nA=nA, nE=nE, next=nxt, reward=rew, prob=prb, v0=v0, pol0=None, scale=1.0, flags=["exact"],
+                    enc=dict(state=draw(st.sampled_from(["ravel", "offset", "idcol"])), sdims=[nS] if True else None,
+                             adims=[nA], edims=[nE], prob_shape="scalar"))
+        if spec["enc"]["state"] == "idcol":
+            spec["enc"]["sdims"] = [1]
+        cfg = dict(solver=kind, mbs=draw(st.integers(1, nS + 1)), eps=1.0)
+        if kind == "rvi":
+            cfg["gamma"] = 1.0
+        elif kind == "pvi":
+            cfg["gamma"] = 1.0
+            cfg["period"] = draw(st.integers(2, 3))
+            cfg["clear"] = False
+        else:
+            cfg["gamma"] = draw(st.sampled_from([0.5, 0.5, 1.0])) if kind == "vi" else 0.5
+            cfg["test"] = draw(st.sampled_from(["span", "max_diff"]))
+        if kind == "sa":
+            cfg["shuffle"] = False
+            cfg["seed"] = 0
+        # choose epsilon so that the threshold equals the measure of a generated sweep exactly
+        model = _Model(spec, cfg)
+        from vf.tabular import state_vectors  # noqa: F401
+        lay = None
+        if kind == "sa":
+            bs = min(cfg["mbs"], nS)
+            lay = (1, -(-nS // bs), bs)  # single device layout (exact cases run on the first device count only)
+        ms = []
+        for _ in range(8):
+            ms.append(model.sweep(lay, None))
+        cands = [m for m in ms if 0 < m < float("inf")]
+        if not cands:
+            cfg["eps"] = 1.0
+        else:
+            m = cands[draw(st.integers(0, len(cands) - 1))]
+            cfg["eps"] = float(m)  # thr = eps*(1-g)/g = eps for g = 1/2, and eps for g = 1 / rvi / pvi
+        limits = [draw(st.integers(1, 4)) for _ in range(draw(st.integers(2, 3)))]
+        return dict(spec=spec, cfg=cfg, limits=limits, exact=True)
+
+    @st.composite
     def cases(draw):
+        if draw(st.integers(0, 4)) == 0:
+            return draw(exact_tie_cases())
         kind = draw(st.sampled_from(KINDS))
         chain = "hub" if kind == "rvi" or draw(st.integers(0, 3)) == 0 else None
         spec = draw(mdp_specs(max_states=9, allow_pol0=(kind == "pi"), chain=chain))
@@ -157,6 +218,29 @@ class _Model:
         return m
 
 
+def _exact_ok(spec, cfg, n):
+    """True iff n plain sweeps are exactly representable: the float iterates equal the iterates in rational arithmetic."""
+    from fractions import Fraction
+
+    kind = cfg["solver"]
+    gamma = Fraction(1) if kind == "rvi" else Fraction(float(cfg["gamma"]))
+    if n > 14:
+        return False
+    nxt, rew, prb = ref_mdp.arrays(spec)
+    nS, nA, nE = nxt.shape
+    V = [Fraction(float(x)) for x in ref_mdp.initial_values(spec)]
+    Vf = ref_mdp.initial_values(spec)
+    for _ in range(n):
+        V = [max(sum(Fraction(float(prb[s, a, e])) * (Fraction(float(rew[s, a, e])) + gamma * V[int(nxt[s, a, e])])
+                     for e in range(nE)) for a in range(nA)) for s in range(nS)]
+        Vf = ref_mdp.backup(spec, Vf, float(gamma))[0]
+        if any(Fraction(float(x)) != y for x, y in zip(Vf, V)):
+            return False
+        if max(abs(y.denominator).bit_length() + abs(y.numerator).bit_length() for y in V) > 48:
+            return False
+    return True
+
+
 def _same_policy(spec, gamma, values, pa, pb, tol):
     if np.array_equal(pa, pb):
         return True
@@ -188,6 +272,9 @@ def judge(case):
     lay = sut.layout(solver)
     model = _Model(spec, cfg)
     gamma = model.gamma
+    exact = bool(case.get("exact")) and _exact_ok(spec, cfg, sum(limits) + 1) and lay[0] == 1
+    if exact:
+        classes.append("exact-arithmetic")
     nxt, rew, prb = ref_mdp.arrays(spec)
     rmax = float(np.max(np.abs(rew)))
     prev_it = 0
@@ -238,7 +325,9 @@ def judge(case):
                 if kind == "pvi" and gamma < 1:
                     # the discounted period measure divides sweep differences by gamma^(j-1): rounding is amplified
                     btol += 1e-13 * (1 + scale_now) * int(cfg["period"]) * gamma ** -(model.n)
-                if abs(m - model.thr) <= btol:
+                if exact and m == model.thr:
+                    classes.append("exact-tie-at-threshold")
+                if not exact and abs(m - model.thr) <= btol:
                     borderline = True
                     break
                 if m < model.thr:
